@@ -250,6 +250,37 @@ def gen_cases(ctx, extra_bias=None):
         cases.append(sysc(ci("v1unstake", []), amt=10000 * AERGO, bno=300000))
         cases.append(sysc(ci("v1unstake", []), amt=13000 * AERGO, snd=1, bno=300001))
         cases.append(sysc(ci("v1voteBP", ps[:1]), bno=400000))
+    # enterprise conf values with the storage separator and other special characters, followed by the
+    # transactions that load the stored conf again (enableConf, append/removeConf: Conf.Validate path)
+    cert = "dGVzdAo="
+    special = [cert + ":R\\x", cert + ":R\\", "\\" + cert + ":W", cert + ":R\\\\x", cert + ":R:W", cert + ":R,W", cert + ':"W"',
+               cert + ":R\u0000", cert + ":\u00e9W", cert + ": W ", cert + ":", ":W", cert + ":R\nW", cert + ":R'W'", cert + ":R;x"]
+    raw_special = ['{"name":"setConf","args":["rpcpermissions","%s:R\\u005cx","dGVzdDIK:W"]}' % cert,
+                   '{"name":"appendConf","args":["rpcpermissions","%s:R\\u005c\\u005cx"]}' % cert,
+                   '{"name":"setConf","args":["p2pwhite","{\\"address\\":\\"1.2.3.4\\",\\"cidr\\":\\"\\\\\\"}"]}']
+    picks = special if not quick else special[:4] + rng.sample(special[4:], 3)
+    for sp in picks:
+        for cmdname in ("setConf", "appendConf"):
+            gi = newg()
+            ent = lambda c: mk(gi, "aergo.enterprise", c)
+            cases += ENT_SETUP(gi)
+            if cmdname == "setConf":
+                cases.append(ent({"name": "setConf", "args": ["rpcpermissions", sp, "dGVzdDIK:W"]}))
+            else:
+                cases.append(ent({"name": "setConf", "args": ["rpcpermissions", "dGVzdDIK:R"]}))
+                cases.append(ent({"name": "appendConf", "args": ["rpcpermissions", sp]}))
+            cases.append(ent({"name": "enableConf", "args": ["rpcpermissions", True]}))
+            cases.append(ent({"name": "appendConf", "args": ["rpcpermissions", "dGVzdDMK:RW"]}))
+            cases.append(ent({"name": "enableConf", "args": ["rpcpermissions", True]}))
+            cases.append(ent({"name": "removeConf", "args": ["rpcpermissions", sp]}))
+            cases.append(ent({"name": "enableConf", "args": ["RpcPermissions", False]}))
+    for rawp in raw_special:
+        gi = newg()
+        cases += ENT_SETUP(gi)
+        cases.append(mk(gi, "aergo.enterprise", rawp))
+        cases.append(mk(gi, "aergo.enterprise", {"name": "enableConf", "args": ["rpcpermissions", True]}))
+        cases.append(mk(gi, "aergo.enterprise", {"name": "enableConf", "args": ["p2pwhite", True]}))
+        cases.append(mk(gi, "aergo.enterprise", {"name": "appendConf", "args": ["rpcpermissions", "dGVzdDMK:RW"]}))
     # every right shape after its setup, on fork 1..3, by admin / staker and by a stranger
     for rcpt, c, amt in right_shapes(rng):
         for fork in ((rng.choice([1, 2, 3]),) if quick else (0, 1, 2, 3, 4)):
@@ -384,11 +415,8 @@ def parse_conf(rawhex):
 
 
 def cconfs(confs):
-    items = []
-    for k, raw in sorted(confs.items()):
-        on, vals = parse_conf(raw)
-        items.append("(%s,(%s,[%s]))" % (cstr(k), B(on), ";".join(cs(v) for v in vals)))
-    return "[" + ";".join(items) + "]"
+    """raw stored conf records by upper-case key (the model deserialises them itself: State.de_conf)"""
+    return "[" + ";".join("(%s,%s)" % (cstr(k), cs(raw)) for k, raw in sorted(confs.items())) + "]"
 
 
 def coq_case(c, o):
@@ -413,7 +441,7 @@ def coq_case(c, o):
     namev = "(mkName %s %s [%s] [%s])" % (vf.coq_Z(int(v["balance"] or 0)), vf.coq_Z(int(v["name_price"])),
                                           ";".join("(%s,%s)" % (cs(k), cs(r)) for k, r in sorted(v["names"].items())),
                                           ";".join("(%s,%s)" % (cs(k), cs(r)) for k, r in sorted(v["names0"].items())))
-    entv = "(mkEnt %s %s %s %s)" % (cs(v["sender"]), cs(v["admins"]), cconfs(v["confs"]), B(v["cc_set"]))
+    entv = "(ent_of_raw %s %s %s %s)" % (cs(v["sender"]), cs(v["admins"]), cconfs(v["confs"]), B(v["cc_set"]))
     rows = []
     for r in o.get("strs") or []:
         rows.append("(%s, mkRow %s %s %s %s %s %s %s %d %s %s %s %s %s)" % (
@@ -455,7 +483,7 @@ def eval_cases(ctx, cases, obs, tag):
         ids = keep[s0:s0 + shard]
         items = [coq_case(cases[i], obs[i]) for i in ids]
         txt = ["From Coq Require Import ZArith NArith List Bool String.",
-               "From Verif Require Import AdmitTotal.Base AdmitTotal.Model AdmitTotal.Eval.", "Import ListNotations.",
+               "From Verif Require Import AdmitTotal.Base AdmitTotal.Model AdmitTotal.State AdmitTotal.Eval.", "Import ListNotations.",
                "Open Scope N_scope.", "Open Scope string_scope.",
                "Definition cases : list ccase := [%s]." % ";\n".join(items),
                "Definition M := Eval vm_compute in mismatches cases.", "Print M."]
